@@ -90,21 +90,21 @@ def parse_pairs(out, name):
 
 
 def _eval_e(args):
-    tag, part = args
-    text = PRELUDE + "Definition ecs : list ecase := [\n%s\n].\nDefinition ME := Eval vm_compute in e_mismatches ecs.\nPrint ME.\n" % ";\n".join(t for _, t in part)
+    tag, part, fn = args
+    text = PRELUDE + "Definition ecs : list ecase := [\n%s\n].\nDefinition ME := Eval vm_compute in %s ecs.\nPrint ME.\n" % (";\n".join(t for _, t in part), "e_mismatches" + fn)
     out = vlib.coq_eval(tag, text)
-    return [part[int(m)][0] for m in vlib.parse_coq_list(out, "ME")], {}
+    return [part[int(m.replace("%nat", ""))][0] for m in vlib.parse_coq_list(out, "ME")], {}
 
 
 def _eval_d(args):
-    tag, part = args
-    text = PRELUDE + ("Definition dcs : list dcase := [\n%s\n].\nDefinition MD := Eval vm_compute in d_mismatches dcs.\nPrint MD.\n"
-                      "Definition AL := Eval vm_compute in d_allocs dcs.\nPrint AL.\n") % ";\n".join(t for _, t in part)
+    tag, part, fn = args
+    text = PRELUDE + ("Definition dcs : list dcase := [\n%s\n].\nDefinition MD := Eval vm_compute in %s dcs.\nPrint MD.\n"
+                      "Definition AL := Eval vm_compute in d_allocs dcs.\nPrint AL.\n") % (";\n".join(t for _, t in part), "d_mismatches" + fn)
     out = vlib.coq_eval(tag, text)
-    return [part[int(m)][0] for m in vlib.parse_coq_list(out, "MD")], {part[i][0]: n for i, n in parse_pairs(out, "AL")}
+    return [part[int(m.replace("%nat", ""))][0] for m in vlib.parse_coq_list(out, "MD")], {part[i][0]: n for i, n in parse_pairs(out, "AL")}
 
 
-def eval_cases(elines, dlines, tag, chunk=160, workers=12):
+def eval_cases(elines, dlines, tag, chunk=160, workers=12, grammar=False):
     """Returns (bad_e, bad_d, allocs, skipped): indices into elines / dlines where model and implementation differ,
     {dline index: bytes the model says were committed to a forged length}. The model is evaluated inside Coq
     (vm_compute), several coqc processes side by side."""
@@ -114,8 +114,9 @@ def eval_cases(elines, dlines, tag, chunk=160, workers=12):
     skipped = sum(1 for _, t in et + dt if t is None)
     et = [(i, t) for i, t in et if t is not None]
     dt = [(i, t) for i, t in dt if t is not None]
-    jobs = [(_eval_e, ("%s-e%d" % (tag, s), et[s:s + chunk])) for s in range(0, len(et), chunk)]
-    jobs += [(_eval_d, ("%s-d%d" % (tag, s), dt[s:s + chunk])) for s in range(0, len(dt), chunk)]
+    fn = "_grammar" if grammar else ""   # grammar=True: compare with the specifications instead of the regenerated tables
+    jobs = [(_eval_e, ("%s-e%d" % (tag, s), et[s:s + chunk], fn)) for s in range(0, len(et), chunk)]
+    jobs += [(_eval_d, ("%s-d%d" % (tag, s), dt[s:s + chunk], fn)) for s in range(0, len(dt), chunk)]
     bad_e, bad_d, allocs = [], [], {}
     with ThreadPoolExecutor(max_workers=workers) as ex:
         futs = [(f, ex.submit(f, a)) for f, a in jobs]
@@ -129,17 +130,16 @@ def eval_cases(elines, dlines, tag, chunk=160, workers=12):
     return sorted(bad_e), sorted(bad_d), allocs, skipped
 
 
-def model_decode_text(kind, d, hx):
-    """What the model makes of one byte string (for replay files)."""
-    text = PRELUDE + 'Definition R := Eval vm_compute in decode_any %s %s (H "%s").\nPrint R.\n' % (KIND[kind], DIAL[d], hx)
+def model_decode_text(kind, d, hx, grammar=False):
+    """What the model (regenerated tables, or the specifications when grammar=True) makes of one byte string."""
+    text = PRELUDE + 'Definition R := Eval vm_compute in decode_any %s %s %s (H "%s").\nPrint R.\n' % ("T_grammar" if grammar else "T_code", KIND[kind], DIAL[d], hx)
     out = vlib.coq_eval("one", text)
     m = re.search(r"R\s*=\s*(.*?)\n\s*:\s", out, re.S)
     return re.sub(r"\s+", " ", m.group(1))[:4000] if m else out[-500:]
 
 
-def model_encode_text(e):
-    text = PRELUDE + ('Definition R := Eval vm_compute in match %s with (k, d, v, _, _) => '
-                      'match k, v with KdShortstr, CS s => Some (enc_shortstr s) | KdLongstr, CS s => Some (enc_longstr s) | _, _ => encode_any d v end end.\nPrint R.\n' % e.coq())
+def model_encode_text(e, grammar=False):
+    text = PRELUDE + 'Definition R := Eval vm_compute in encode_case %s %s.\nPrint R.\n' % ("T_grammar" if grammar else "T_code", e.coq())
     out = vlib.coq_eval("onee", text)
     m = re.search(r"R\s*=\s*(.*?)\n\s*:\s", out, re.S)
     if not m:
